@@ -354,3 +354,14 @@ CLAIMED.update({
          "note": STD_NOTE,
          "technique": "static analysis: monotone-counter store rule (K2/K4), amount provenance pairing (K8), must-pass-through between accumulation and delivery (K3), dominating guards (K4), evaluation of setters (K6)"},
 })
+CLAIMED.update({
+ "C30": {"level": "other",
+         "text": "Dispatch order of the HTTP server by evaluation of evhttp_handle_request on all 32 combinations of (URI parsed, method allowed, Host present, path callback matches, "
+                 "generic callback set): parser error code without URI; 501 for a disallowed method before any virtual-host lookup or callback; virtual host resolved (only with a Host) "
+                 "before path dispatch and the dispatch uses the resolved host's callbacks; specific callback, else generic callback, else 404, exactly one outcome. evhttp_find_vhost "
+                 "consults aliases first and descends through case-insensitive pattern matches to a fixed point; evhttp_dispatch_callback compares the decoded path with strcmp and "
+                 "frees the copy on every exit. Case-fold symmetry: in functions with an ignorecase flag both operands of every character comparison have the same folding status on "
+                 "every path. Declined: the matching semantics of patterns and paths as such (string values).",
+         "note": STD_NOTE,
+         "technique": "static analysis: evaluation of extracted dispatch code over its finite decision domain (K6/K3), structural ordering (K3), folding-status dataflow symmetry on comparisons (K7)"},
+})
